@@ -1125,7 +1125,7 @@ func TestC14(t *testing.T) {
 		c.Check(t, "qc-random", hx.N(1500, 12000), func(cs *hx.Case) {
 			rt := cs.RT()
 			n := rapid.IntRange(lo, hi).Draw(rt, "n")
-			paths := []string{"proposal", "block", "smr", "collect", "tdpos", "xpoa", "tdpos-term"}
+			paths := []string{"proposal", "block", "smr", "collect", "tdpos", "xpoa", "tdpos-term", "xpoa-change"}
 			path := rapid.SampledFrom(paths).Draw(rt, "path")
 			collector := 0
 			if path == "block" {
@@ -1217,7 +1217,7 @@ func TestC14(t *testing.T) {
 func c14EnumPaths(n int, thorough bool) []string {
 	switch {
 	case thorough && n >= 2:
-		return []string{"proposal", "block", "smr", "collect", "tdpos", "xpoa", "tdpos-term"}
+		return []string{"proposal", "block", "smr", "collect", "tdpos", "xpoa", "tdpos-term", "xpoa-change"}
 	case thorough:
 		return []string{"proposal", "block", "smr", "collect", "tdpos", "xpoa"}
 	case n >= 7:
@@ -1226,14 +1226,14 @@ func c14EnumPaths(n int, thorough bool) []string {
 		return []string{"proposal", "block", "smr", "collect"}
 	}
 	if n >= 2 {
-		return []string{"proposal", "block", "smr", "collect", "tdpos", "xpoa", "tdpos-term"}
+		return []string{"proposal", "block", "smr", "collect", "tdpos", "xpoa", "tdpos-term", "xpoa-change"}
 	}
 	return []string{"proposal", "block", "smr", "collect", "tdpos", "xpoa"}
 }
 
 // c14EnumVariants: the placement / order / delivery variants enumerated for (n, path).
 func c14EnumVariants(n int, path string, thorough bool) []c14Variant {
-	plugin := path == "tdpos" || path == "xpoa" || path == "tdpos-term"
+	plugin := path == "tdpos" || path == "xpoa" || path == "tdpos-term" || path == "xpoa-change"
 	var vs []c14Variant
 	switch {
 	case thorough && !plugin:
@@ -1265,6 +1265,8 @@ func c14EnumVariants(n int, path string, thorough bool) []c14Variant {
 // has height 5 and sits in the first slot of term 2, for which every snapshot of the stub ledger reports an election
 // result that replaces validators 1 and 2 by the two outsider keys. The validator set in force for the certified
 // view is still Ring[0..n): signatures of the newly elected keys are "non-member" entries and must not count.
+// Path xpoa-change: the same situation for xpoa - blocks 0..6, block 3 changes the validator set (effective three
+// blocks later): the proposer of block 7 comes from the new set, the certificate over block 6 is judged by the old.
 
 type c14Block struct {
 	proposer string
@@ -1291,7 +1293,9 @@ func (b *c14Block) GetInTrunk() bool                             { return true }
 type c14Ledger struct {
 	chain []*c14Block
 	conf  []byte
-	snap  map[string][]byte // key suffix -> value answered by every snapshot (election result of path tdpos-term)
+	snap  map[string][]byte // key suffix -> value answered by snapshots (election result / validator change)
+	// snapFrom: snapshots of blocks below this height answer nothing (the change is not on the chain yet)
+	snapFrom int64
 }
 
 var errC14NoBlock = fmt.Errorf("c14 stub ledger: block not found")
@@ -1316,6 +1320,11 @@ func (l *c14Ledger) GetTipXMSnapshotReader() (ledger.XMSnapshotReader, error) {
 	return c14SnapReader{}, nil
 }
 func (l *c14Ledger) CreateSnapshot(blkId []byte) (ledger.XMReader, error) {
+	for _, b := range l.chain {
+		if string(b.id) == string(blkId) && b.height < l.snapFrom {
+			return c14XMReader{}, nil
+		}
+	}
 	return c14XMReader{l.snap}, nil
 }
 func (l *c14Ledger) GetTipSnapshot() (ledger.XMReader, error) { return c14XMReader{l.snap}, nil }
@@ -1426,6 +1435,12 @@ func c14PluginOf(name string, n int) (*c14Plugin, error) {
 		// term 1 begins at init+3000ms; init+6000ms is block position 1 of proposer 0
 		ts = (c14TdposInitMs + 6000) * 1000000
 		ts0 = (c14TdposInitMs + 1) * 1000000
+	case "xpoa-change":
+		if n < 2 {
+			return nil, fmt.Errorf("descriptor: path xpoa-change needs n >= 2")
+		}
+		certified = 6
+		fallthrough
 	case "xpoa":
 		conf = fmt.Sprintf(`{"period":%d,"block_num":%d,"init_proposer":{"address":%s},"bft_config":{}}`, c14XpoaPeriod, c14XpoaBlockNum, addrs)
 		// a multiple of the term length: position 0, block position 1
@@ -1453,6 +1468,18 @@ func c14PluginOf(name string, n int) (*c14Plugin, error) {
 			b.storage = st
 		}
 		l.chain = append(l.chain, b)
+	}
+	if name == "xpoa-change" {
+		// block 3 carries the transaction that changes the validator set: snapshots of blocks >= 3 report the new
+		// set. The proposer of block 7 is taken from the snapshot of block 3 (new set), the validators of the
+		// certified view 6 from the snapshot of block 2 (still the initial set).
+		var addrs []string
+		for _, m := range c14TermElected(n) {
+			addrs = append(addrs, hx.Ring[m].Address)
+		}
+		vb, _ := json.Marshal(map[string][]string{"address": addrs})
+		l.snap = map[string][]byte{"_validates": vb}
+		l.snapFrom = 3
 	}
 	if name == "tdpos-term" {
 		// the election result every snapshot answers with: candidates = the elected set, ballots descending
@@ -1483,6 +1510,7 @@ func c14PluginOf(name string, n int) (*c14Plugin, error) {
 		cfg.ConsensusName = "tdpos"
 		impl = tdpos.NewTdposConsensus(cctxv, cfg)
 	} else {
+		cfg.ConsensusName = "xpoa"
 		impl = xpoa.NewXpoaConsensus(cctxv, cfg)
 	}
 	if impl == nil {
@@ -1544,4 +1572,5 @@ func init() {
 	c14ExtraPaths["tdpos"] = c14RunPlugin("tdpos")
 	c14ExtraPaths["xpoa"] = c14RunPlugin("xpoa")
 	c14ExtraPaths["tdpos-term"] = c14RunPlugin("tdpos-term")
+	c14ExtraPaths["xpoa-change"] = c14RunPlugin("xpoa-change")
 }
